@@ -51,13 +51,10 @@ func (sx *server) handleDiscover(yl *yl.Ylog, src, dst net.IP, duid d.Duid, msg 
 	}
 
 	yl.Printf("DISCOVER: Searching for a free IP, client suggested IP '%s'", opts.RequestedIP)
-	offer, err := sx.ipdb.FindIP(sx.ctx, sx.arpVerify(msg.ClientMAC), opts.RequestedIP, duid)
+	// Search and reserve in one step: a concurrent DISCOVER must not be able to pick the same IP.
+	offer, err := sx.ipdb.OfferIP(sx.ctx, sx.arpVerify(msg.ClientMAC), opts.RequestedIP, duid, 15*time.Second)
 	if err != nil {
 		yl.Printf("DISCOVER: Failed to find a free IP")
-		return
-	}
-	if err := sx.ipdb.HoldClient(offer, duid, 15*time.Second); err != nil {
-		yl.Printf("DISCOVER: Failed to update temporarily lease during discovery")
 		return
 	}
 
